@@ -11,6 +11,10 @@ inheritance needs source access).
             "kind": "dense" | "csr_array" | "csr_matrix" | "csc_array" | "csc_matrix" | "coo_array" |
                     "coo_matrix" | "operator" ("sparse" = "csr_array"),   # representation of the partials
             "omit_zero": bool,                                # leave structurally zero blocks out of `jac`
+            "Q": {out: [[ "p/q", a, ai, b, bi, row ], ...]},  # optional quadratic terms (round 3):
+                                                              #   out[row] += coef * a[ai] * b[bi]  (a, b inputs)
+            "default_sizes": {in: n},                         # optional: length of the grammar default of an input
+                                                              #   (the values passed may have another length)
             "restrict": bool}                                 # `jac` holds only the requested outputs/inputs
 
 Explicit outputs:   out = c[out] + sum_in A[out][in] @ in.
@@ -88,7 +92,8 @@ class LinDisc(Discipline):
         all_outs = self.expl_outs + state_names + list(self.states)
         self.io.input_grammar.update_from_names(all_ins)
         self.io.output_grammar.update_from_names(all_outs)
-        self.io.input_grammar.defaults = {n: np.zeros(self.sizes[n]) for n in all_ins}
+        dsz = {k: int(v) for k, v in (spec.get("default_sizes") or {}).items()}
+        self.io.input_grammar.defaults = {n: np.zeros(dsz.get(n, self.sizes[n])) for n in all_ins}
         if self.states:
             self.io.residual_to_state_variable = dict(self.states)
             self.io.state_equations_are_solved = True
@@ -99,6 +104,11 @@ class LinDisc(Discipline):
         self.restrict = bool(spec.get("restrict", False))
         self.A = {o: {i: _mat(m) for i, m in blocks.items()} for o, blocks in spec["A"].items()}
         self.c = {o: np.array([float(Fraction(v)) for v in vec]) for o, vec in spec["c"].items()}
+        # quadratic terms (exact dyadic coefficients): (coef, a, ai, b, bi, row)
+        self.Q = {
+            o: [(float(Fraction(t[0])), str(t[1]), int(t[2]), str(t[3]), int(t[4]), int(t[5])) for t in terms]
+            for o, terms in (spec.get("Q") or {}).items()
+        }
         self.n_lin = 0
 
     # ---- values
@@ -106,6 +116,8 @@ class LinDisc(Discipline):
         v = self.c.get(o, np.zeros(self.sizes[o])).copy()
         for i, m in self.A.get(o, {}).items():
             v = v + m @ np.asarray(data[i], dtype=float)
+        for coef, a, ai, b, bi, row in self.Q.get(o, ()):
+            v[row] += coef * float(np.asarray(data[a], dtype=float)[ai]) * float(np.asarray(data[b], dtype=float)[bi])
         return v
 
     def _run(self, input_data):
@@ -127,8 +139,8 @@ class LinDisc(Discipline):
         return out
 
     # ---- exact partials
-    def block(self, o: str, i: str) -> np.ndarray | None:
-        """The exact partial d o / d i (None when structurally zero)."""
+    def block(self, o: str, i: str, data=None) -> np.ndarray | None:
+        """The partial d o / d i at the current input data (None when structurally zero)."""
         inv = {w: r for r, w in self.states.items()}
         if o in inv:  # a solved state
             r = inv[o]
@@ -136,7 +148,17 @@ class LinDisc(Discipline):
                 return None
             return -(self.A[r][i] / np.diag(self.A[r][o])[:, None])
         m = self.A.get(o, {}).get(i)
-        return None if m is None else m.copy()
+        m = None if m is None else m.copy()
+        for coef, a, ai, b, bi, row in self.Q.get(o, ()):
+            if i not in (a, b):
+                continue
+            if m is None:
+                m = np.zeros((self.sizes[o], self.sizes[i]))
+            if i == a:
+                m[row, ai] += coef * float(np.asarray(data[b], dtype=float)[bi])
+            if i == b:
+                m[row, bi] += coef * float(np.asarray(data[a], dtype=float)[ai])
+        return m
 
     def _wrap(self, m: np.ndarray):
         if self.kind in SPARSE_KINDS:
@@ -154,10 +176,11 @@ class LinDisc(Discipline):
             ins = [i for i in ins if i in set(input_names)]
             outs = [o for o in outs if o in set(output_names)]
         jac: dict[str, dict[str, Any]] = {}
+        data = self.io.data if self.Q else None
         for o in outs:
             jac[o] = {}
             for i in ins:
-                m = self.block(o, i)
+                m = self.block(o, i, data)
                 if m is None:
                     if self.omit_zero:
                         continue
